@@ -48,6 +48,9 @@ VOCAB = ["proto", "import", "option", "type", "const", "enum", "message", "bool"
          "uint8[3]", "byte[0]", "uint3[65536]", "Msg[2]'", "message'", "\\", "$", "é"]
 
 
+WORK_ROOT: List[Optional[str]] = [None]  # set by check() before the pool forks
+
+
 class Hang(Exception):
     pass
 
@@ -107,7 +110,7 @@ def work(job: Tuple[int, Dict[str, bytes], str, bool]) -> Dict[str, Any]:
     jid, files, main, render = job
     from bitproto.renderer.impls import renderer_registry
 
-    d = tempfile.mkdtemp(prefix="bpv-c09-")
+    d = tempfile.mkdtemp(prefix="bpv-c09w-", dir=WORK_ROOT[0])  # inside the run's scratch directory: removed with it even if this worker is killed
     out: Dict[str, Any] = {"id": jid, "render": {}}
     t0 = time.time()
     signal.signal(signal.SIGALRM, _alarm)
@@ -419,7 +422,9 @@ def tie_expr(run: common.Run, drv: common.Driver, rng: random.Random, n: int) ->
                 real = ("INTERNAL:" + type(e).__name__, None)
                 run.violation({"kind": "impl-vs-spec", "input": {"text": f"const A = {t}"}, "observed_impl": f"{type(e).__name__}: {e}",
                                "expected_by_spec": "a value or a parser error"})
-            reqs.append({"op": "front.eval", "text": t, "env": [["K", 6]]})
+            # at the text level `//` starts a comment that runs to the end of the line; the expression model is of
+            # the expression sub-language, so it is asked about what precedes the comment
+            reqs.append({"op": "front.eval", "text": t.split("//")[0], "env": [["K", 6]]})
             reals.append(real)
     for q, real, ans in zip(reqs, reals, drv.batch(reqs)):
         run.count("tie_expr:" + real[0])
@@ -483,6 +488,17 @@ def check(run: common.Run, drv: common.Driver, rng: random.Random, tier: str) ->
 
     ctx = mp.get_context("fork")
     slow: List[Tuple[float, str]] = []
+    work_scratch = R.Scratch(prefix="bpv-c09-")
+    WORK_ROOT[0] = work_scratch.dir
+    try:
+        _explore(run, rng, jobs, meta, conf, ctx, slow)
+    finally:
+        work_scratch.close()
+    run.notes["slowest_inputs"] = sorted(slow, reverse=True)[:10]
+    _cli_sample(run, rng, jobs, conf, cli_budget)
+
+
+def _explore(run, rng, jobs, meta, conf, ctx, slow) -> None:
     with ctx.Pool(min(14, os.cpu_count() or 4)) as pool:
         for res in pool.imap_unordered(work, jobs, chunksize=8):
             jid = res["id"]
@@ -511,8 +527,9 @@ def check(run: common.Run, drv: common.Driver, rng: random.Random, tier: str) ->
                         continue
                     run.violation(dict(rep, kind="impl-vs-spec", observed_impl={"stage": f"render {lang}", "class": c[0], "exception": c[1], "detail": c[2]},
                                        expected_by_spec="generated code or a renderer error; never an internal exception"))
-    run.notes["slowest_inputs"] = sorted(slow, reverse=True)[:10]
 
+
+def _cli_sample(run, rng, jobs, conf, cli_budget) -> None:
     # the real CLI in a subprocess: exit status 0 / 1, a diagnostic and no traceback
     with R.Scratch() as sc:
         order = list(range(len(jobs)))
